@@ -796,7 +796,14 @@ func (c *caseState) doWrap(t []string) (string, string) {
 		if _, dup := c.dbs[name]; dup {
 			return "err:dup", "-"
 		}
-		nd, def = dbm.NewPrefixDB(par, p), &dbdef{kind: "prefix", prefix: p, parent: c.defs[t[4]]}
+		pp := p
+		if len(p) > 0 {
+			// hand PrefixDB a prefix slice with spare capacity (callers slice prefixes out of larger buffers):
+			// code that appends to the caller's slice instead of a copy then aliases keys between batch ops
+			pp = make([]byte, len(p), len(p)+64)
+			copy(pp, p)
+		}
+		nd, def = dbm.NewPrefixDB(par, pp), &dbdef{kind: "prefix", prefix: p, parent: c.defs[t[4]]}
 		if len(p) == 0 {
 			// an empty prefix is outside PrefixDB's use (cpIncr panics on it): correspondence only
 			c.abstain = true
